@@ -306,10 +306,17 @@ def interpret(prog):
         mu = ln.get("unit")
         if mu and not p["unit"]:
             raise ValueError("generator: unit on a modification of a unit-less node is not demanded")
-        if mu and L["value"] is None:
-            raise ValueError("generator: none with a unit is not demanded")
+        if mu and L["value"] is None and UNITS[mu][1] != UNITS[p["unit"]][1]:
+            raise ValueError("generator: none with a unit of another dimension is not demanded")
         if mu and UNITS[mu][1] != UNITS[p["unit"]][1]:
             reject = reject or "unit of another dimension"
+            continue
+        if L["value"] is None:
+            # `none` (the generators write a unit behind it only on INTERMEDIATE assignments): the node is empty,
+            # type and unit stay those of the first occurrence; later assignments are not influenced by it
+            p["value"] = None
+            p["converted"] = False
+            p["assigned"] = True
             continue
         if mu and mu != p["unit"]:
             p["value"] = _convert(L["value"], L["exact"], mu, p["unit"])
@@ -411,6 +418,9 @@ def _same(e, o, rel):
             if e == 0:
                 return o == 0
             return abs(Fraction(o) - e) <= Fraction(rel or 0) * abs(e)
+        if isinstance(e, int) and abs(e) > 2 ** 53:
+            # integers beyond the float mantissa: the payload must be an exact Python int (never compared via floats)
+            return isinstance(o, int) and not isinstance(o, bool) and int(o) == e and str(o) == str(e)
         return e == o
     return e == o
 
